@@ -123,8 +123,13 @@ deriving Repr, Inhabited
 
 structure ExpertRec where
   f : Nat                               -- recompute function id
-  obsChange : Option Nat := none
+  node : Nat := 0
   children : List ExpertEdge := []
+  /-- what the edge callbacks have stored so far: dependency ↦ last value delivered -/
+  slots : List (Nat × Val) := []
+  /-- driver scripts: dependencies added by `xadd` (in order) and the one held by `xsel` -/
+  script : List Nat := []
+  sel : Option (Nat × Nat) := none       -- (dependency, child it points to)
   forceStale : Bool := false
   numInvalidChildren : Int := 0
   willFireAllCallbacks : Bool := true
@@ -208,6 +213,7 @@ structure State where
   counters : Counters := {}
   nextToken : Nat := 0
   nextDep : Nat := 0
+  currentlyRunning : Option Nat := none      -- `only_in_debug.currently_running_node`
   alive : Bool := true                      -- false once the `IncrState` is dropped
   top : Array Nat := #[]                    -- naming table: k-th node created by a top-level action
   log : List Event := []                    -- reversed
@@ -225,6 +231,13 @@ def mkHeap (maxHeight : Nat) : Heap :=
 def State.init (maxHeight : Nat := 128) (debug : Bool := true) : State :=
   { cfg := { debug := debug }, rch := mkHeap maxHeight, ahh := mkHeap maxHeight }
 
+/-- operand of a template instruction -/
+inductive Opnd where
+  | outer (n : Nat)      -- `n<k>`: the k-th node created by a top-level action (captured handle)
+  | abs (n : Nat)        -- `#<i>`: a node by creation index (directed tests: nodes leaked from closures)
+  | loc (j : Nat)        -- `%j`: the j-th node created by this run of the closure
+deriving Repr, Inhabited, DecidableEq
+
 /-- user code, the quantifier "for all programs" -/
 inductive Effect where
   | setVar (v : Nat) (x : Val)
@@ -238,18 +251,13 @@ inductive Effect where
   | disallow (o : Nat)
   | unsubscribe (o : Nat) (t : Nat)
   | subscribe (o : Nat) (h : Nat)
-  | expertAdd (e : Nat) (child : Nat) (cb : Option Nat)
-  | expertRemove (e : Nat) (dep : Nat)
-  | expertMakeStale (e : Nat)
-  | expertInvalidate (e : Nat)
+  | xAdd (e : Opnd) (child : Opnd) (cb : Bool)            -- add a dependency, remember it in the script list
+  | xRm (e : Opnd) (i : Nat)                              -- remove the (i mod len)-th scripted dependency
+  | xSel (e : Opnd) (cb : Bool) (always : Bool) (targets : List Opnd)
+      -- join/bind pattern: depend on `targets[arg mod k]`, drop the previously selected dependency
+  | xStale (e : Opnd)
+  | xInval (e : Opnd)
 deriving Repr, Inhabited
-
-/-- operand of a template instruction -/
-inductive Opnd where
-  | outer (n : Nat)      -- `n<k>`: the k-th node created by a top-level action (captured handle)
-  | abs (n : Nat)        -- `#<i>`: a node by creation index (directed tests: nodes leaked from closures)
-  | loc (j : Nat)        -- `%j`: the j-th node created by this run of the closure
-deriving Repr, Inhabited, DecidableEq
 
 /-- node-creating instruction, usable at top level (operands `outer`) and inside bind bodies -/
 inductive Instr where
@@ -264,6 +272,7 @@ inductive Instr where
   | zip (a b : Opnd)
   | dependOn (a b : Opnd)
   | cutoff (n : Opnd) (c : CutoffK)
+  | expert (f : Nat)
 deriving Repr, Inhabited
 
 structure Template where
@@ -280,5 +289,8 @@ structure Env where
   cutoff : Nat → Val → Val → Bool
   body : Nat → Val → Template
   handler : Nat → Update → List Effect
+  /-- expert recompute closure: values of the current dependencies (in edge order) and, for those with a
+  callback, what the callback last stored -/
+  expertFn : Nat → List (Option Val) → List (Option Val) → Val
 
 end IncrVerif.Engine
